@@ -5,7 +5,7 @@ type InhibitRule struct {
 	Source []Matcher `json:"source"`
 	Target []Matcher `json:"target"`
 	Equal  []string  `json:"equal"`
-	Name   string    `json:"name,omitempty"` // optional, need not be unique, has no effect on the verdict
+	Name   string    `json:"name,omitempty"`   // optional, need not be unique, has no effect on the verdict
 	Legacy bool      `json:"legacy,omitempty"` // written with the deprecated *_match / *_match_re maps where possible
 }
 
